@@ -2221,7 +2221,11 @@ class Engine:
                 v = self.typed_param(n, t)
                 env[n] = v
         state.env = env
-        self.run_ghost(state, con.setup)
+        saved_safety, self.safety = self.safety, False      # configuration / ghost snapshots: not executed code
+        try:
+            self.run_ghost(state, con.setup)
+        finally:
+            self.safety = saved_safety
         for rq in con.requires:
             state.assume(self.eval_spec(state, rq, dict(state.env)))
         for a in extra_assumptions:
